@@ -1315,3 +1315,9 @@ impl InnerSubscriber {
 
 #[cfg(test)]
 mod tests {}
+
+// Verification hook: detached Publisher/Subscriber constructors (kept out of tree).
+#[cfg(feature = "rustdds_verif")]
+pub(crate) mod verif_hook {
+  include!(concat!(env!("RUSTDDS_VERIF_DIR"), "/incrate/hooks_pubsub.rs"));
+}
